@@ -63,7 +63,7 @@ class Parser:
         if isinstance(exc, linemon.BudgetExceeded):
             ck.violation(f'non-termination-or-superlinear:{where}', {'len': len(data), 'lines': lines, 'budget': budget, 'data': data[:96],
                                                                     'msg': str(exc)}, {'data': data, 'header_only': header_only, 'class': cls})
-        elif name in ALLOWED:
+        elif name in ALLOWED or isinstance(exc, (r_msg.InvalidSyntax, r_msg.UnsupportedCriticalPayload)):
             ck.count('outcome.protocol_error')
             ck.count(f'reject.{where}')
         else:
